@@ -15,8 +15,18 @@ first Body child received by the transport, or the exception class).  Coq
 evaluates
   sel_agrees   the model of the selectors does exactly that, and
   sel_spec_ok  that is what the property text fixes for this selection
-and the same two for histories over several clients (set_options / clone /
-call) - the "only for the client it is set on" part.
+(grp_agrees / grp_spec_ok: the same over groups of selections sharing one WSDL
+literal; the selections of a failing group are then checked one by one) and
+the same two for histories over several clients (set_options / clone / call) -
+the "only for the client it is set on" part.
+
+Tiers: quick = a seed-offset slice of 300 of the 65641 WSDL shapes x 24
+selections, all depth<=2 expressions x 8 option settings on 3 core WSDLs (+ a
+WSDL without SOAP ports, one without services), a sixth of the depth-3
+expressions, 300 histories (about 33k selections); thorough = every shape x 8
+selections, all depth<=2 expressions x all 144 option settings on 4 core WSDLs,
+all depth-3 expressions (attribute access last) x 4 option settings on them,
+3000 histories (about 1.05M selections).
 """
 import itertools
 import logging
